@@ -30,6 +30,9 @@ var c02Workflows = map[string]string{
 	// two files that reference the same defective local action / reusable workflow: the callee's own defect must show
 	// up at the same place in every run (the caches are filled by whichever file comes first)
 	"callee-defect-1.yml": "on: push\njobs:\n  j:\n    runs-on: ubuntu-latest\n    steps:\n      - uses: ./.github/actions/bad\n        id: s\n      - uses: ./.github/actions/broken\n  k:\n    uses: ./.github/workflows/badwf.yml\n",
+	// ONE file whose jobs reference the same defective callees: the callee's own defect is reported once, at the first job
+	// in source order (the visitor used to walk the jobs in map order)
+	"callee-defect-within.yml": "on: push\njobs:\n  a:\n    uses: ./.github/workflows/badwf.yml\n  b:\n    uses: ./.github/workflows/badwf.yml\n  c:\n    uses: ./.github/workflows/missing.yml\n  d:\n    uses: ./.github/workflows/missing.yml\n  e:\n    uses: ./.github/workflows/badwf.yml\n  f:\n    runs-on: ubuntu-latest\n    steps:\n      - uses: ./.github/actions/broken\n  g:\n    runs-on: ubuntu-latest\n    steps:\n      - uses: ./.github/actions/broken\n      - uses: ./.github/actions/bad\n  h:\n    runs-on: ubuntu-latest\n    steps:\n      - uses: ./.github/actions/bad\n",
 	"callee-defect-2.yml": "on: push\njobs:\n  j:\n    runs-on: ubuntu-latest\n    steps:\n      - uses: ./.github/actions/bad\n      - uses: ./.github/actions/broken\n  k:\n    uses: ./.github/workflows/badwf.yml\n  m:\n    uses: ./.github/workflows/missing.yml\n",
 	// candidates whose positions have an increasing line and a DECREASING column (flow style over several lines):
 	// the order "first by position" must still be a total order there
@@ -48,7 +51,7 @@ func runC02(c *ctx, r *Report) error {
 	if !c.quick {
 		reps = 400
 	}
-	r.Rule = fmt.Sprintf("12 workflows built so that every site where the code ranges over a Go map yields two or more diagnostics at one source position or several candidates (surplus format placeholders, missing required inputs of bundled / local actions and of a local reusable workflow incl. secrets, undefined inputs, runner-label conflicts with several conflicting labels, several needs cycles, Merge of object types with ≥ 3 properties, several undefined matrix keys / permission scopes / variables, candidates laid out with increasing line and decreasing column, two files sharing defective local callees), plus eight files of two repositories with different configurations alternating in one call, in a scratch repository with a local action and a local reusable workflow; each file alone and all files in one LintFiles call are linted %d times by fresh linters under GOMAXPROCS ∈ {1,2,4,16}; output bytes (-oneline) and exit status must be identical in every repetition; non-trivial = distinct (file set, GOMAXPROCS) configurations that produce ≥ 2 diagnostics", reps)
+	r.Rule = fmt.Sprintf("13 workflows built so that every site where the code ranges over a Go map yields two or more diagnostics at one source position or several candidates (surplus format placeholders, missing required inputs of bundled / local actions and of a local reusable workflow incl. secrets, undefined inputs, runner-label conflicts with several conflicting labels, several needs cycles, Merge of object types with ≥ 3 properties, several undefined matrix keys / permission scopes / variables, candidates laid out with increasing line and decreasing column, two files sharing defective local callees, one file whose jobs share them), plus eight files of two repositories with different configurations alternating in one call, in a scratch repository with a local action and a local reusable workflow; each file alone and all files in one LintFiles call are linted %d times by fresh linters under GOMAXPROCS ∈ {1,2,4,16}; output bytes (-oneline) and exit status must be identical in every repetition; non-trivial = distinct (file set, GOMAXPROCS) configurations that produce ≥ 2 diagnostics", reps)
 	tmp, err := os.MkdirTemp("", "verif-c02-")
 	if err != nil {
 		return err
